@@ -150,7 +150,7 @@ Fixpoint take_n (n : N) (s : script) : data * option N * script :=
 (* ---- MIME type: the chain detected type :: parent :: ... :: root.  mimetype.Detect and
    MIME.Is are third-party: each node carries the library's answers to Is("text/plain") and
    Is("application/pdf") and its String(). *)
-Record mnode := MN { mn_text_plain : bool; mn_pdf : bool; mn_full : bytes }.
+Record mnode := MN { mn_text_plain : bool; mn_pdf : bool; mn_m3u8 : bool; mn_full : bytes }.
 Definition mime := list mnode.
 
 Fixpoint prefixb (p s : bytes) : bool :=
@@ -163,11 +163,12 @@ Fixpoint contains (p s : bytes) : bool :=
   prefixb p s || match s with [] => false | _ :: s' => contains p s' end.
 
 (* (Parent() != nil && IsMIMETypeInHierarchy(Parent(), "text/plain")) || Is("application/pdf")
-   || strings.Contains(String(), "text/") *)
+   || Is("application/vnd.apple.mpegurl") || strings.Contains(String(), "text/")
+   (the HLS clause was added by "fix: ProcessBody keeps the body of an HLS playlist") *)
 Definition needs_spool (m : mime) : bool :=
   match m with
   | [] => false
-  | d :: parents => existsb mn_text_plain parents || mn_pdf d || contains (bs "text/") (mn_full d)
+  | d :: parents => existsb mn_text_plain parents || mn_pdf d || mn_m3u8 d || contains (bs "text/") (mn_full d)
   end.
 
 (* ---- ProcessBody ------------------------------------------------------------------------ *)
